@@ -574,8 +574,14 @@ def drain_loop_check(func, pop_ev):
     """popSafe() result bound to a local; the call sits in a loop; every non-throwing exit of the function after the call goes through
     the `!var` (null result) edge.  Returns (ok, detail)."""
     decl = [d for d in func.events("decl") if d.block == pop_ev.block and d.idx > pop_ev.idx and strip_tmpl(d.get("icall") or "").endswith("::popSafe")]
+    if not decl:
+        # `auto x = cond ? <something kept from before> : q.popSafe();` -- the declaration sits in the join block behind the arm that pops
+        succ = [s_ for s_ in func.blocks[pop_ev.block].succs if s_ is not None]
+        if len(succ) == 1 and not any(e_["k"] in ("decl", "assign") for e_ in func.blocks[pop_ev.block].elems if e_.get("idx", 0) > pop_ev.idx):
+            jd = [d for d in func.blocks[succ[0]].elems if d["k"] == "decl" and d.get("var") and "unique_ptr" in (d.get("type") or "")]
+            decl = jd[:1]
     if strip_tmpl(pop_ev.get("callee") or "") != "Pistache::Queue::popSafe" or not decl:
-        return False, "consumer does not bind the popSafe result to a local"
+        return None, "consumer does not bind the popSafe result to a local (shape not modelled)"
     var = decl[0]["var"]
     in_loop = any(x is pop_ev for x in cfg.events_after(func, pop_ev))
     null_edges = set()
